@@ -1,9 +1,9 @@
 CONSTANTS
   Nets <- MCNetsGen
-  Durations <- MCDurGen
-  Cycle = 5
-  Timeout = 10
+  Durations <- MCDurSim
+  Configs <- MCCfgSim
   CheckPeriod = 5
+  SendsPerSec = 15
   Slack = 1
   D = 24
 INIT Init
